@@ -19,7 +19,8 @@ KEYS = ["A", "B", "KEY", "NAME_1", "X9", "ROLE", "PATTERN", "REGEX", "ID", "Zeta
 STRS = ["", "x y", "hello world", 'say "hi" now', "tab\there", "line1\nline2", "1abc def", "é ü", "a::b c", "true story",
         "[not, a list]", "// no comment", "semi;colon here", "back\\slash end", "===END=== inside", "  padded  ", "→ arrow text"]
 INTS = ["0", "1", "-7", "42", "1000000", "123456789012345678901234567890"]
-FLOATS = ["2.5", "-0.125", "1e+16", "3.0", "1e-07", "1.5e-05", "2.5e+16", "6.02e+23", "-1.2345e-10"]
+FLOATS = ["2.5", "-0.125", "1e+16", "3.0", "1e-07", "1.5e-05", "2.5e+16", "6.02e+23", "-1.2345e-10",
+          "0.30000000000000004", "1234567890123456.0", "1.0000000000000002e+16", "5e-324", "1.7976931348623157e+308"]
 
 
 def gen_value(rng):
